@@ -125,3 +125,6 @@ def run(ctx):
         if o.rule in ('C13.NOREAD', 'C13.INPLACE'):
             o.rule = 'C02.%s(=C13)' % o.rule.split('.')[1]
             ctx.obligations.append(o)
+    # bulk derivation must not bypass what ckd refuses or computes (hardened refusal, invalid-key refusals)
+    from .C01 import check_bulk
+    check_bulk(ctx, 'C02.BULK', kinds=('pub',))
